@@ -26,7 +26,8 @@ VARIABLES ast, depth
 (***************************************************************************)
 LeafNames  == {"x", "y", "s", "d", "true", "TRUE", "null"}
 LeafConsts == {None, B(TRUE), B(FALSE), I(0), I(1), I(2), S(<<>>), S(<<"a">>), S(<<"k">>)}
-Leaves     == {Name(n) : n \in LeafNames} \cup {Const(v) : v \in LeafConsts}
+NegOne     == Un("neg", Const(I(1)))      \* the literal -1 (Python has no negative constants): treated as a leaf
+Leaves     == {Name(n) : n \in LeafNames} \cup {Const(v) : v \in LeafConsts} \cup {NegOne}
 Core       == {Name("x"), Name("y"), Name("d"), Const(I(1)), Const(S(<<"a">>))}
 Core3      == {Name("y"), Const(I(1)), Const(S(<<"a">>))}     \* siblings of the ternary constructors
 Singletons == {Const(None), Const(B(TRUE)), Const(B(FALSE))}
@@ -36,7 +37,7 @@ UnsupForms == {"call", "binop", "lambda", "listcomp", "genexp", "dict", "set", "
 
 Wrap(a, Sib, Sib3) ==
        {Un(op, a) : op \in {"not", "neg", "pos", "inv"}}
-  \cup {Attr(a, n) : n \in {"k", "a"}}
+  \cup {Attr(a, n) : n \in {"k", "a", "__class__"}}      \* __class__: every Python object has one; only dict KEYS count
   \cup {Sub(a, s) : s \in Sib} \cup {Sub(s, a) : s \in Sib}
   \cup {Slice(a, Const(I(1)))} \cup {Slice(s, a) : s \in Sib3}
   \cup {Cmp(a, <<op>>, <<s>>) : op \in OrdOps, s \in Sib}
